@@ -356,4 +356,142 @@ theorem execS_callStmt {G : GCtx} (ok : G.OK) (fuel : Nat) (hcs : ∀ k, k < fue
               rw [hs.2.2.2.1] at hst
               exact ⟨a', b', mem', hst, rep'⟩
 
+/-! ### The induction -/
+
+def StmtLSpec (G : GCtx) (fuel : Nat) : Prop :=
+  ∀ pi ∈ G.procs, ∀ sp dep hi, G.lo ≤ sp → sp + G.S pi ≤ G.spv → G.spv ≤ sp + dep * G.smax →
+    ∀ ss σ, okS4L G.pnames ss = true →
+      ExecSL (KOf G pi sp dep hi) (G.iEpi pi) (optStmts (annotSL (fun _ => none) ss)) σ (X.execSeq fuel G.xc ss σ)
+
+theorem callE_inv (ps : List String) (e : X.Expr) (h : callE ps e = true) :
+    ∃ g args, e = .call g args ∧ g ∈ ps ∧ ∀ a ∈ args, pureE a = true := by
+  cases e <;> simp [callE] at h
+  rename_i g args
+  exact ⟨g, args, rfl, h.1, h.2⟩
+
+theorem callSpec_zero (G : GCtx) : CallSpec G 0 := by
+  intro pi _ ws st lnk b mem spc k kind n _ _ _ _ _ _ _ _
+  rw [callUser_zero]; trivial
+
+/-- **Stage (4).**  For every fuel: the statement triples of every procedure in every activation
+    within the stack budget, and the specification of every callee. -/
+theorem all_correct {G : GCtx} (ok : G.OK) : ∀ fuel, StmtSpec G fuel ∧ StmtLSpec G fuel ∧ CallSpec G fuel := by
+  intro fuel
+  induction fuel using Nat.strongRecOn with
+  | _ fuel ih =>
+    cases fuel with
+    | zero =>
+      refine ⟨?_, ?_, callSpec_zero G⟩
+      · intro pi _ sp dep hi _ _ _ s σ _ gs code gs' i a b mem _ _ _ _ _ _
+        unfold X.exec; trivial
+      · intro pi _ sp dep hi _ _ _ ss σ _ gs code gs' i a b mem _ _ _ _ _ _
+        unfold X.execSeq; trivial
+    | succ F =>
+      obtain ⟨ihS, ihL, ihC⟩ := ih F (Nat.lt_succ_self _)
+      have hcsF : ∀ k, k < F → CallSpec G k := fun k hk => (ih k (Nat.lt_succ_of_lt hk)).2.2
+      have hcsF1 : ∀ k, k < F + 1 → CallSpec G k := fun k hk => (ih k hk).2.2
+      refine ⟨?_, ?_, callee_correct ok F ihS⟩
+      · intro pi hpi sp dep hi hlo hspv hstack s σ hok
+        have wf := ok.wfs pi hpi sp dep hi hlo hspv
+        have ihS' := ihS pi hpi sp dep hi hlo hspv hstack
+        cases s with
+        | skip => exact execS_skip _ _ wf _ σ
+        | stop => exact execS_stop _ _ wf _ σ
+        | ret e =>
+          simp only [okS4, Bool.or_eq_true] at hok
+          have : optStmt (annotS (fun _ => none) (.ret e)) = .ret (optExpr (annotate (fun _ => none) e)) := by
+            simp [annotS, optStmt]
+          rw [this]
+          rcases hok with hpure | hcall
+          · exact execS_ret (KOf G pi sp dep hi) _ wf _ e σ hpure
+          · obtain ⟨g, args, rfl, hg, hargs⟩ := callE_inv _ _ hcall
+            apply execS_retE (KOf G pi sp dep hi) _ wf F (.call g args) _ σ
+            intro st _ gs code gs' i a b mem hgen hat hr hsz hnl hci
+            exact exec_callExpr ok F hcsF hpi sp dep hi hlo hspv hstack g args hg hargs st gs code gs' i a b mem
+              hgen hat hr hsz hnl hci
+        | assign n e =>
+          simp only [okS4, Bool.or_eq_true] at hok
+          have : optStmt (annotS (fun _ => none) (.assign n e)) = .assign n (optExpr (annotate (fun _ => none) e)) := by
+            simp [annotS, optStmt]
+          rw [this]
+          rcases hok with hpure | hcall
+          · exact execS_assign (KOf G pi sp dep hi) _ wf _ n e σ hpure
+          · obtain ⟨g, args, rfl, hg, hargs⟩ := callE_inv _ _ hcall
+            apply execS_assignE (KOf G pi sp dep hi) _ wf F n (.call g args) _ σ
+            intro st _ gs code gs' i a b mem hgen hat hr hsz hnl hci
+            exact exec_callExpr ok F hcsF hpi sp dep hi hlo hspv hstack g args hg hargs st gs code gs' i a b mem
+              hgen hat hr hsz hnl hci
+        | ite c t e =>
+          simp only [okS4, Bool.and_eq_true] at hok
+          exact execS_ite (KOf G pi sp dep hi) _ wf F c t e σ hok.1.1 (fun s => ihS' t s hok.1.2) (fun s => ihS' e s hok.2)
+        | «while» c b =>
+          simp only [okS4, Bool.and_eq_true] at hok
+          exact execS_while (KOf G pi sp dep hi) _ wf F c b σ hok.1 (fun s => ihS' b s hok.2)
+            (fun s => ihS' (.while c b) s (by simp [okS4, hok.1, hok.2]))
+        | seq ss =>
+          simp only [okS4] at hok
+          intro gs code gs' i a b mem hg hat hr hsz hnl hci
+          rw [optStmt_seq, genStmt_seq] at hg
+          cases ht : X.tick G.xc σ with
+          | none => unfold X.exec; rw [ht]; trivial
+          | some st =>
+            rw [exec_seq F G.xc ss σ st ht]
+            have hs := tick_same _ _ _ ht
+            have := ihL pi hpi sp dep hi hlo hspv hstack ss st hok gs code gs' i a b mem hg hat (hr.same hs) hsz hnl hci
+            rw [hs.2.2.2.1] at this
+            exact this
+        | syscall id args =>
+          simp only [okS4, Bool.and_eq_true, decide_eq_true_eq, List.all_eq_true] at hok
+          exact execS_syscall (KOf G pi sp dep hi) _ wf _ id args σ hok.1 hok.2
+        | assignSub n i e => simp [okS4] at hok
+        | call g args =>
+          simp only [okS4, Bool.and_eq_true, List.all_eq_true, List.contains_iff_mem] at hok
+          exact execS_callStmt ok (F + 1) hcsF1 hpi sp dep hi hlo hspv hstack g args hok.1 hok.2 σ
+      · intro pi hpi sp dep hi hlo hspv hstack ss σ hok
+        have ihS' := ihS pi hpi sp dep hi hlo hspv hstack
+        have ihL' := ihL pi hpi sp dep hi hlo hspv hstack
+        cases ss with
+        | nil =>
+          intro gs code gs' i a b mem hg hat hr hsz hnl hci
+          simp only [annotSL, optStmts] at hg
+          rw [genStmts_nil] at hg
+          simp only [Except.ok.injEq, Prod.mk.injEq] at hg
+          rw [← hg.1, execSeq_nil]
+          exact ⟨a, b, mem, Steps.refl _ _, hr⟩
+        | cons s rest =>
+          simp only [okS4L, Bool.and_eq_true] at hok
+          intro gs code gs' i a b mem hg hat hr hsz hnl hci
+          rw [optStmts_cons] at hg
+          obtain ⟨c, gs1, cs, h1, h2, hcode⟩ := genStmts_cons_inv _ _ _ _ _ _ hg
+          subst hcode
+          have e2 : Eff gs1 gs' := by
+            have := genStmt_eff (KOf G pi sp dep hi).ctx (.seq (optStmts (annotSL (fun _ => none) rest))) gs1 cs gs'
+              (by rw [genStmt_seq]; exact h2)
+            exact this
+          have e1 := genStmt_eff _ _ _ _ _ h1
+          simp only [low_append] at hat ⊢
+          rw [execSeq_cons]
+          have hS := ihS' s σ hok.1 gs c gs1 i a b mem h1 hat.left hr (by have := e2.2.1; omega) hnl (hci.of_eff e2)
+          cases hx : X.exec F G.xc s σ with
+          | undef w => trivial
+          | exit cd s' =>
+            rw [hx] at hS
+            exact hS
+          | ok fl s' =>
+            cases fl with
+            | ret w =>
+              rw [hx] at hS
+              simp only
+              split
+              · exact hS
+              · trivial
+            | normal =>
+              rw [hx] at hS
+              simp only
+              obtain ⟨a', b', mem', st1, rep1⟩ := hS
+              have hL := ihL' rest s' hok.2 gs1 cs gs' (i + ((KOf G pi sp dep hi).low c).length) a' b' mem' h2 hat.right rep1 hsz
+                (by have := e1.1; omega) hci
+              simp only [List.length_append, ← Nat.add_assoc]
+              exact hL.pre st1
+
 end Hex.C01s
